@@ -2,18 +2,20 @@
 
 Explicit-state search over the life-cycle machine of one PPTable, for every table of the alphabet:
 
-  table     = column description tuple (<= 2 / <= 3 descriptions out of COLS: fixed, ranged and default
-              widths, enum modifiers, break-by, repeated fields, hidden fields) x initial record limits
-              (none given, '*', '1:1', '2:0') x record set (3 records: nothing is ever skipped; 6 records: '1:1'
-              skips lines, and the longest values sit in the skipped part)
-  operations= print | fmt = str(fmt) | fmt = "" | fmt = ";" | fmt = ";;" | fmt = ";1:1" | fmt = ";*" |
+  table     = column description tuple (quick: every description alone + pairs over COLS2_QUICK; thorough:
+              all pairs + triples over COLS3; fixed, ranged and default widths, enum modifiers, break-by,
+              repeated fields, hidden fields) x (initial record limits, record set) out of COMBOS: limits
+              none / '*' / '1:1' / '2:0' / '3:3' / '2:2' with 3, 4 or 6 records; with '1:1' the longest
+              values sit in the skipped part; '3:3' x 6 records and '2:2' x 4 records are truncated only
+              because the empty lines of a break-by column use up visible slots
+  operations= print | fmt = str(fmt) | fmt = "" | fmt = ";1:1" | fmt = ";0:1" | fmt = ";3:3" | fmt = ";*" |
               fmt = "*" | fmt = <other explicit format> | rebuild (replace the table by
               PPTable(records, fmt=str(fmt), same fields / types / header))
   state     = reached by replaying the operation path on a fresh table (tables cannot be copied);
               every state check starts from the module / class level state of a fresh interpreter
               (mc.hist_render.StateSnapshot); canonical key = (reference model of the format,
-              printed-since-last-format-change flag, str(table.fmt)); merged states have the same future because set_fmt rebuilds every column
-              object from the format (negotiated widths and the 'lines skipped' flag are the only memory and
+              printed-since-last-format-change flag, str(table.fmt)); merged states have the same future
+              because set_fmt rebuilds every column object from the format (negotiated widths and the 'lines skipped' flag are the only memory and
               both show in str(fmt)).
   invariant (every distinct state):  s = str(table.fmt)
       (a) `fmt = s` is accepted and the rendering afterwards == the rendering of the state;
@@ -53,7 +55,8 @@ ASSUMPTIONS = [
     "min width <= max width",
 ]
 REQUIRED_FEATURES = ["col:fixed", "col:ranged", "col:default-width", "col:modifier", "col:break-by",
-                     "col:repeated-field", "col:hidden", "limits:none", "limits:star", "limits:1:1", "limits:2:0",
+                     "col:repeated-field", "col:hidden", "limits:none", "limits:star", "limits:1:1", "limits:2:0", "limits:3:3", "limits:2:2",
+                     "window:truncated-though-records<=limits",
                      "state:fresh", "state:printed", "state:re-formatted", "state:printed-lines-skipped",
                      "op:rebuild-accepted", "op:set-own-fmt-accepted", "fmt:width-annotation", "fmt:limits-omitted"]
 
@@ -65,44 +68,58 @@ COLS = ["id:3", "name:5", "st:12",                     # fixed (name:5 truncates
         "id!:2", "st!", "st/name!:3-8", "name!",         # break-by
         "name:-1"]                                       # hidden field
 COLS3 = ["id:3", "name:2-6", "name:3-20", "st", "st/val", "st/name!:3-8", "id!:2", "name!", "name:-1", "st:4-30"]
-LIMITS = {"none": "", "star": ";*", "1:1": ";1:1", "2:0": ";2:0"}
+# pairs over this sub-alphabet in the quick tier (all descriptions as single columns; all pairs in thorough)
+COLS2_QUICK = ["name:2-6", "name:3-20", "st", "st/val", "st/name:3-20", "id!:2", "st!", "st/name!:3-8",
+               "name!", "name:-1"]
+LIMITS = {"none": "", "star": ";*", "1:1": ";1:1", "2:0": ";2:0", "3:3": ";3:3", "2:2": ";2:2"}
+# (initial limits, record set).  '3:3' x big and '2:2' x four are the window where, with a break-by column,
+# the empty break lines use up visible slots: n_first + n_last + 1 - #break lines < #records <= n_first + n_last,
+# i.e. the table is truncated although it has no more records than the limits allow lines.
+COMBOS = [("none", "small"), ("none", "big"), ("star", "big"), ("1:1", "small"), ("1:1", "big"), ("2:0", "big"),
+          ("3:3", "big"), ("2:2", "four")]
 RECORDS = {
     "small": [(1, "ab", 10), (2, "abcdefgh", 10), (3, "abc", 999)],
     "big": [(1, "ab", 10), (22, "abcdefghij", 10), (333, "abc", 999), (4, None, 7), (5, "abcdefg", 20),
             (6, "a", 20)],
+    "four": [(1, "ab", 10), (1, "abcdefghi", 10), (2, "abc", 999), (3, "abc", 7)],
 }
 OTHER_FMT = "name:2-7,id!:3"
-OPS = ["print", "set:self", "set:empty", "set:seps", "set:seps2", "set:lim11", "set:lim01", "set:limall",
+# (fmt = ";" and fmt = ";;" are applied in *every* state by invariant (c); as transitions they lead to the
+# state fmt = "" leads to)
+OPS = ["print", "set:self", "set:empty", "set:lim11", "set:lim01", "set:lim33", "set:limall",
        "set:star", "set:other", "rebuild"]
-_SET = {"set:empty": "", "set:seps": ";", "set:seps2": ";;", "set:lim11": ";1:1", "set:lim01": ";0:1",
+_SET = {"set:empty": "", "set:lim11": ";1:1", "set:lim01": ";0:1", "set:lim33": ";3:3",
         "set:limall": ";*", "set:star": "*", "set:other": OTHER_FMT}
 EMPTY_FORMATS = ["", ";", ";;"]
 
 
 def bounds(tier):
-    return {"column_descriptions": len(COLS), "columns_per_table": "1..2" if tier == "quick" else
+    return {"column_descriptions": len(COLS), "columns_per_table":
+            ("1 over all descriptions, 2 over %d descriptions" % len(COLS2_QUICK)) if tier == "quick" else
             "1..2 over all descriptions, 3 over %d descriptions" % len(COLS3),
-            "initial_limits": sorted(LIMITS), "record_sets": {k: len(v) for k, v in RECORDS.items()},
+            "initial_limits_x_records": [list(c) for c in COMBOS],
+            "record_sets": {k: len(v) for k, v in RECORDS.items()},
             "operations": OPS, "depth": 3 if tier == "quick" else 4}
 
 
 def _tables(tier):
-    tuples = [(c,) for c in COLS] + list(itertools.product(COLS, repeat=2))
+    tuples = [(c,) for c in COLS]
     if tier == "thorough":
-        tuples += list(itertools.product(COLS3, repeat=3))
+        tuples += list(itertools.product(COLS, repeat=2)) + list(itertools.product(COLS3, repeat=3))
+    else:
+        tuples += list(itertools.product(COLS2_QUICK, repeat=2))
     out = []
     for tup in tuples:
         if all(c.endswith(":-1") for c in tup):
             continue                       # no visible column: outside the domain
-        for lim in LIMITS:
-            for rec in RECORDS:
-                out.append((tup, lim, rec))
+        for lim, rec in COMBOS:
+            out.append((tup, lim, rec))
     return out
 
 
 def shards(tier):
     n = len(_tables(tier))
-    k = 96 if tier == "quick" else 192
+    k = 97 if tier == "quick" else 193          # prime: every shard gets every (limits, records) combination
     return [("tables", i, k) for i in range(min(k, n))]
 
 
@@ -315,6 +332,9 @@ def check_state(spec, path, acc):
         return label, feats, base
     if "records skipped" in r0:
         feats.append("state:renders-with-skipped-lines")
+        lim = base.model.limits
+        if lim and len(RECORDS[spec[2]]) <= lim[0] + lim[1]:
+            feats.append("window:truncated-though-records<=limits")    # break lines use up visible slots
 
     # (d) the reported format describes the format the table has
     if not isinstance(rep_cols, list) or not cols_match(rep_cols, base.model.cols):
